@@ -444,6 +444,48 @@ func (w *htlcWorkload) Genesis(cdc codec.Codec, gs map[string]json.RawMessage) {
 		msg := &htlctypes.MsgCreateHTLC{Sender: sender.String(), To: to.String(), Amount: amt, HashLock: lockText, TimeLock: expiry - uint64(w.GenesisBase)}
 		w.genBorn = append(w.genBorn, &htBook{ID: id, Msg: msg, Secret: secret, LockKind: "right", Type: "plain", Fate: fate, Created: w.GenesisBase, Expiry: int64(expiry)})
 	}
+	// ... and four open cross-chain transfers of the first asset (two incoming, two outgoing; one of each is claimed, the
+	// other left to expire): an import has to put them into the expiry queue and into the supply counters like a creation
+	if w.GenesisBorn > 0 && len(accs) >= 7 && len(w.cfg) > 0 {
+		c := w.cfg[0]
+		dep := accs[c.Deputy%len(accs)].GetAddress()
+		sumIn, sumOut := sdkmath.ZeroInt(), sdkmath.ZeroInt()
+		for i := 0; i < 4; i++ {
+			user := accs[(c.Deputy+2+i)%len(accs)].GetAddress()
+			if user.Equals(dep) {
+				continue
+			}
+			amt := sdk.NewCoins(sdk.NewCoin(c.Denom, toInt(c.Min).AddRaw(int64(i))))
+			if amt[0].Amount.BigInt().Cmp(c.Max) > 0 {
+				amt = sdk.NewCoins(sdk.NewCoin(c.Denom, toInt(c.Min)))
+			}
+			secret := w.secret()
+			ts := uint64(1_600_000_000 + i)
+			lock := htlcLock(secret, ts)
+			h := htlctypes.HTLC{Amount: amt, HashLock: strings.ToUpper(hex.EncodeToString(lock)), Timestamp: ts, State: htlctypes.Open, Transfer: true,
+				ExpirationHeight: uint64(w.GenesisBase) + uint64(38+3*i), ReceiverOnOtherChain: "other-chain-receiver", SenderOnOtherChain: "other-chain-sender"}
+			typ := "incoming"
+			if i%2 == 0 {
+				h.Sender, h.To, h.Direction = dep.String(), user.String(), htlctypes.Incoming
+				sumIn = sumIn.Add(amt[0].Amount)
+				h.Id = hex.EncodeToString(htlcID(dep, user, amt, lock))
+			} else {
+				typ = "outgoing"
+				h.Sender, h.To, h.Direction = user.String(), dep.String(), htlctypes.Outgoing
+				sumOut = sumOut.Add(amt[0].Amount)
+				escrowed = escrowed.Add(amt...)
+				h.Id = hex.EncodeToString(htlcID(user, dep, amt, lock))
+			}
+			born = append(born, h)
+			msg := &htlctypes.MsgCreateHTLC{Sender: h.Sender, To: h.To, Amount: amt, HashLock: h.HashLock, Timestamp: ts, Transfer: true,
+				TimeLock: h.ExpirationHeight - uint64(w.GenesisBase), ReceiverOnOtherChain: h.ReceiverOnOtherChain, SenderOnOtherChain: h.SenderOnOtherChain}
+			w.genBorn = append(w.genBorn, &htBook{ID: h.Id, Msg: msg, Secret: secret, LockKind: "right", Type: typ, Fate: []string{"early", "early", "refund", "refund"}[i], Created: w.GenesisBase, Expiry: int64(h.ExpirationHeight)})
+		}
+		sup := &supplies[0]
+		sup.IncomingSupply.Amount, sup.OutgoingSupply.Amount = sumIn, sumOut
+		sup.CurrentSupply.Amount = sup.CurrentSupply.Amount.Add(sumOut)
+		params.AssetParams[0].SupplyLimit.Limit = params.AssetParams[0].SupplyLimit.Limit.Add(sumOut)
+	}
 	if !escrowed.IsZero() {
 		bg.Balances = append(bg.Balances, banktypes.Balance{Address: htlcEscrow(), Coins: escrowed})
 		bg.Supply = bg.Supply.Add(escrowed...)
@@ -731,6 +773,7 @@ func (w *htlcWorkload) createPlain(st *htState, fate string, lock uint64) []rig.
 	}
 	hl := w.lockFor(lockKind, sec, ts)
 	toAddr, _ := sdk.AccAddressFromBech32(to)
+	to = w.spell(to, tag)
 	msg := &htlctypes.MsgCreateHTLC{Sender: w.r.Acc(sender).Addr.String(), To: to, Amount: amount, HashLock: w.hexCase(hl), Timestamp: ts, TimeLock: lock}
 	id := hex.EncodeToString(htlcID(w.r.Acc(sender).Addr, toAddr, amount, hl))
 	tag.ID, tag.Secret, tag.Fate = id, lockKind, fate
@@ -947,6 +990,7 @@ func (w *htlcWorkload) createIncoming(st *htState, fate string, lock uint64, den
 	hl := htlcLock(sec, ts)
 	amount := sdk.NewCoins(coin(a.Denom, amt))
 	toAddr, _ := sdk.AccAddressFromBech32(to)
+	to = w.spell(to, tag)
 	depAddr := w.r.Acc(dep).Addr
 	msg := &htlctypes.MsgCreateHTLC{Sender: depAddr.String(), To: to, ReceiverOnOtherChain: "", SenderOnOtherChain: "bnb1sender", Amount: amount, HashLock: w.hexCase(hl), Timestamp: ts, TimeLock: lock, Transfer: true}
 	id := hex.EncodeToString(htlcID(depAddr, toAddr, amount, hl))
@@ -2096,7 +2140,13 @@ func (d *htDirector) start() {
 	d.lastTime = d.r.Time
 	for _, b := range d.w.genBorn {
 		lock, _ := hex.DecodeString(b.Msg.HashLock)
-		c := &htContract{ID: b.ID, Sender: b.Msg.Sender, To: b.Msg.To, Amount: b.Msg.Amount, Lock: lock, Created: b.Created, Expiry: b.Expiry, State: htlctypes.Open}
+		c := &htContract{ID: b.ID, Sender: b.Msg.Sender, To: b.Msg.To, Amount: b.Msg.Amount, Lock: lock, Timestamp: b.Msg.Timestamp, Created: b.Created, Expiry: b.Expiry, Transfer: b.Msg.Transfer, State: htlctypes.Open}
+		if b.Type == "incoming" {
+			c.Dir = htlctypes.Incoming
+		} else if b.Type == "outgoing" {
+			c.Dir = htlctypes.Outgoing
+		}
+		d.run.Count("genesis-born-"+c.typ(), 1)
 		d.model[b.ID] = c
 		d.byExpiry[c.Expiry] = append(d.byExpiry[c.Expiry], b.ID)
 		c.Bucket = len(d.byExpiry[c.Expiry])
@@ -2629,7 +2679,19 @@ func (d *htDirector) onTxRejected(br *rig.BlockRecord, tx *rig.TxRecord, tag *ht
 			return
 		}
 		if valid {
+			// the only reasons for which the chain may refuse the preimage of an open contract are consequences of the
+			// authority's parameter changes on cross-chain transfers (asset taken off the list, limit lowered below what
+			// is in flight); anything else - an abort inside the handler included - keeps funds from the designated recipient
+			lg := tx.Result.Log
+			excused := c.typ() != "plain" && (strings.Contains(lg, "asset not found") || strings.Contains(lg, "over limit") || strings.Contains(lg, "supply limit") || strings.Contains(lg, "not active"))
+			if !excused {
+				run.Eval(1)
+				run.Violation(d.mode+":htlc:claim:preimage-of-open-contract-rejected:"+htErrClass(lg), map[string]any{"height": br.Height, "id": c.ID, "type": c.typ(), "amount": c.Amount.String(), "log": logBrief(tx)},
+					"claim of open %s contract %s (amount %s, expires at %d) with the preimage of its hash lock was rejected at height %d: %s", c.typ(), htShort(c.ID), c.Amount, c.Expiry, br.Height, logBrief(tx))
+				return
+			}
 			run.Count("valid-claim-rejected(not judged)", 1)
+			run.Count("valid-claim-rejected(not judged): "+htErrClass(tx.Result.Log), 1)
 			run.Note("valid claim of %s contract %s rejected at height %d: %s", c.typ(), htShort(c.ID), br.Height, logBrief(tx))
 			return
 		}
@@ -2728,7 +2790,7 @@ func (d *htDirector) onTxOK(br *rig.BlockRecord, tx *rig.TxRecord, tag *htTag, p
 		if old != nil && d.mode == "C03" {
 			run.Violation("C03:htlc:duplicate-create-accepted:existing-"+htStateName(old.State), det, "creation of contract %s succeeded although a contract with this id exists (%s, created at %d)", chainID, htStateName(old.State), old.Created)
 		}
-		c := &htContract{ID: chainID, Sender: m.Sender, To: m.To, Amount: m.Amount, Lock: lock, Timestamp: m.Timestamp, Created: h, Expiry: h + int64(m.TimeLock), Transfer: m.Transfer, State: htlctypes.Open}
+		c := &htContract{ID: chainID, Sender: m.Sender, To: htCanonAddr(m.To), Amount: m.Amount, Lock: lock, Timestamp: m.Timestamp, Created: h, Expiry: h + int64(m.TimeLock), Transfer: m.Transfer, State: htlctypes.Open}
 		if m.Transfer {
 			a, _ := pre.asset(m.Amount[0].Denom)
 			if a.DeputyAddress == m.Sender {
@@ -2772,7 +2834,7 @@ func (d *htDirector) onTxOK(br *rig.BlockRecord, tx *rig.TxRecord, tag *htTag, p
 				if hh.Sender != m.Sender {
 					bad = append(bad, "sender")
 				}
-				if hh.To != m.To {
+				if htCanonAddr(hh.To) != htCanonAddr(m.To) { // same account; the spelling on record is the chain's business
 					bad = append(bad, "to")
 				}
 				if !hh.Amount.Equal(m.Amount) {
@@ -3295,3 +3357,51 @@ func (d *htDirector) finish() {
 }
 
 func htSupStr(s htlctypes.AssetSupply) string { return s.String() }
+
+// htErrClass reduces a rejection log to its error text without ids, amounts and addresses.
+func htErrClass(log string) string {
+	log = strings.TrimPrefix(log, "failed to execute message; message index: 0: ")
+	if i := strings.Index(log, " stack:"); i > 0 {
+		log = log[:i]
+	}
+	if i := strings.Index(log, "\n"); i > 0 {
+		log = log[:i]
+	}
+	var b strings.Builder
+	for _, f := range strings.Fields(log) {
+		digits := 0
+		for _, ch := range f {
+			if ch >= '0' && ch <= '9' {
+				digits++
+			}
+		}
+		if digits > 2 || len(f) > 30 {
+			b.WriteString("# ")
+			continue
+		}
+		b.WriteString(f + " ")
+	}
+	out := strings.TrimSpace(b.String())
+	if len(out) > 120 {
+		out = out[:120]
+	}
+	return out
+}
+
+// spell: one recipient in five is written in the other valid spelling of a bech32 address (all upper case); it names
+// the same account, and everything that holds for the account holds for this spelling of it
+func (w *htlcWorkload) spell(addr string, tag *htTag) string {
+	if w.rng.Intn(5) != 0 {
+		return addr
+	}
+	tag.Note += "/upper-case-recipient"
+	return strings.ToUpper(addr)
+}
+
+func htCanonAddr(addr string) string {
+	a, err := sdk.AccAddressFromBech32(addr)
+	if err != nil {
+		return addr
+	}
+	return a.String()
+}
